@@ -49,7 +49,7 @@ MANIFEST = {
     "invariant (first `size` cells some, rest nothing, heap order) in every reachable state, pop/peek return an entry of "
     "minimal priority, push adds exactly one entry and pop removes exactly the returned one (List.Perm on the buffer's "
     "entries), pushing at capacity and popping/peeking when empty panic with the right panic and nothing else ever panics; "
-    "loop fuel proved sufficient. The model keeps every take/swap/unwrap/index error branch of the source. Tie: the real "
+    "loop fuel proved sufficient on every state; iteration yields the entries in priority order. The model keeps every take/swap/unwrap/index error branch of the source. Tie: the real "
     "method bodies from /repo executed under CPython with shims vs the model on the same scripts (quick ~1500 scripts, "
     "thorough ~10^5 incl. exhaustive small scope), results and final buffers compared.",
     "level_note": "Trusted: Lean kernel + propext/Classical.choice/Quot.sound; the CPython shims for Option/array/panic; that "
@@ -58,7 +58,7 @@ MANIFEST = {
     "technique": "Lean 4 refinement proof (concrete option-buffer model -> pure array heap -> multiset/list ADT) + T-exec "
     "correspondence of the real Guppy method bodies under CPython",
     "design_ref": "DESIGN.md §5 C27",
-    "ready": False,
+    "ready": True,
 }
 
 # ----------------------------------------------------------------------------- shims
@@ -169,6 +169,7 @@ class Real:
         import bootstrap
 
         self.drift: list[str] = []
+        self.fields: dict = {}
         self.g: dict = {
             "__builtins__": __builtins__, "some": _some, "nothing": _Nothing(), "panic": _panic, "array": Arr,
             "MAX_SIZE": 0, "T": object(), "TCopyable": object(), "Option": Opt, "owned": object(),
@@ -181,6 +182,7 @@ class Real:
             if not src.startswith(os.path.realpath(bootstrap.REPO)):
                 raise vlib.Infra(f"{name} imported from {src}, not {bootstrap.REPO}")
             fields = [k for k in raw.python_class.__annotations__]
+            self.fields[name] = fields
             impls = DEF_STORE.impls[d.id]
             exp_fields, exp_methods = self.EXPECT[name]
             if fields != exp_fields:
@@ -207,6 +209,15 @@ class Real:
             self.cls[name] = cls
             cf = DEF_STORE.raw_defs[getattr(mod, ctor).id].python_func
             self.g[ctor] = types.FunctionType(cf.__code__, self.g, ctor)
+        # `__iter__` must return the collection itself (the model has no separate iterator state)
+        for name, ctor in (("Stack", "empty_stack"), ("PriorityQueue", "empty_priority_queue")):
+            try:
+                self.g["MAX_SIZE"] = 1
+                obj = self.g[ctor]()
+                if obj.__iter__() is not obj:
+                    self.drift.append(f"T-exec: {name}.__iter__ no longer returns self")
+            except Exception as e:  # noqa: BLE001
+                self.drift.append(f"T-exec: {name}.__iter__/{ctor} raised {type(e).__name__}: {e}")
         # T-src: both modules must bind the same names we shim (a new global used by a body shows up as NameError at run time)
 
     def run(self, kind: str, cap: int, ops: list) -> str:
@@ -261,7 +272,7 @@ class Real:
         if aborted:
             st = "aborted"
         else:
-            fields = self.EXPECT["Stack" if is_stack else "PriorityQueue"][0]
+            fields = self.fields["Stack" if is_stack else "PriorityQueue"]  # actual names (a rename is drift, not a failure)
             try:
                 buf, n = getattr(s, fields[0]), getattr(s, fields[1])
                 cells = []
@@ -541,6 +552,18 @@ def _nontrivial(ops, reply):
     return (pushes >= 3 and pops >= 1) or any(r.startswith("panic:") for r in head)
 
 
+def _shrink(real, kind, cap, ops):
+    """greedy delta-debugging on the op list: drop ops while the oracle still rejects the real run."""
+    changed = True
+    while changed and len(ops) > 1:
+        changed = False
+        for i in range(len(ops) - 1, -1, -1):
+            cand = ops[:i] + ops[i + 1:]
+            if oracle(kind, cap, cand, real.run(kind, cap, cand)) is not None:
+                ops, changed = cand, True
+    return ops
+
+
 def _evaluate(ctx, real, cases, tag=""):
     lines = [_line(*c) for c in cases]
     model = ctx.driver(DRIVER, lines)
@@ -550,11 +573,17 @@ def _evaluate(ctx, real, cases, tag=""):
         last = r.partition(" | ")[0].split(" ")[-1]
         ctx.count(line, nontrivial=_nontrivial(ops, r), kind=f"{kind}:{last.split(':')[0] if not last.startswith('panic') else last}")
         if bad is not None:
-            ctx.violation(
-                "input:" + line,
-                f"{'Stack' if kind == 'stack' else 'PriorityQueue'} deviates from its reference model on `{line}`: {bad}",
-                {"line": line, "real": r, "oracle": bad, "model": m},
-            )
+            if len(ctx.violations) < 3:
+                sops = _shrink(real, kind, cap, ops)
+                sline, sr = _line(kind, cap, sops), real.run(kind, cap, sops)
+                ctx.violation(
+                    "input:" + sline,
+                    f"{'Stack' if kind == 'stack' else 'PriorityQueue'} deviates from its reference model on `{sline}`: "
+                    f"{oracle(kind, cap, sops, sr)}",
+                    {"line": sline, "real": sr, "oracle": oracle(kind, cap, sops, sr), "unshrunk_line": line, "model_on_unshrunk": m},
+                )
+            else:
+                ctx.bump("more-violations")
         if r != m:
             ctx.broke(f"correspondence Model/Coll.lean vs {'stack.py' if kind == 'stack' else 'priority_queue.py'} on `{line}` (real=`{r}` model=`{m}`)")
 
